@@ -141,6 +141,15 @@ CLAIMS = {
         "table agreement, path enumeration over constructors, ordering rules, formula extraction",
         "§4 C15",
     ),
+    "C16": (
+        "Thin, structural claim: support is a normalised share (count / number of trees; exp-normalised score-weighted share over distinct "
+        "topologies), threshold direction and plumbing from the command line, nesting by smallest strict superset with the query discarded, "
+        "own-mutation subtraction, uncovered data become outliers and parentless nodes hang off the virtual root, and injective node identity "
+        "of the relabelled graph (fires on the pinned tree: recorded known finding F9).",
+        "Not decided: that the retained clades are exactly the majority ones; that nesting never raises; validity of the resulting tree.",
+        "formula / event extraction compared with a specification; injectivity rule on the node key",
+        "§4 C16",
+    ),
     "C17": (
         "Decides the two row filters and their order, a row-order taint analysis from the read frames to the five order-sensitive sinks "
         "(samples, mutation order, per-sample vector, cluster order), the defaults and their guards, that MajorCopyNumberError is raised "
@@ -157,6 +166,15 @@ CLAIMS = {
         "Not decided: bitwise determinism of numpy/scipy/numba across machines. Element-kind role table (node ids are ints) is an assumption.",
         "provenance / taint analysis over the whole program (interprocedural def-use, set-type inference)",
         "§4 C18",
+    ),
+    "C19": (
+        "Thin claim of four crash classes visible in the code: single-argument draws from populations a reachable tree makes empty are dominated "
+        "by a non-emptiness test (or reached only under a checked caller guard), CLI ranges exclude the failure values of the partial operations "
+        "that consume them and every option is a parameter of run.run, every call of the resampling step is guarded by 'a further data point "
+        "exists' with bounded subscripts of the retained path, and every exit returns / writes the trace with worker exceptions re-raised.",
+        "Not decided: absence of every other exception; finiteness of log_p_one (totality is not statically decidable).",
+        "dominating-guard analysis over enumerated paths; table agreement between click declarations and consumers",
+        "§4 C19",
     ),
     "C20": (
         "Decides that exactly one function writes the trace, as one pickle frame of the whole mapping inside one truncating gzip stream, "
